@@ -232,16 +232,21 @@ func (c *monC12) After(m *Machine, s *Step) *Violation {
 			}
 		}
 		if kind == "totp" && op.K == "totpvalidate" && !op.F && m.C.Cfg.OneTimeTOTP && pre.TOTPSecretKey != "" {
+			code := strings.TrimSpace(s.Secret) // the same digits with surrounding blanks are the same code
 			if success {
-				if c.lastTOTP[who] == s.Secret {
-					return violation("C12", "totp-code-accepted-twice", "with replay protection on, %q logged in twice in a row with the same TOTP code", who)
+				if c.lastTOTP[who] == code {
+					cls := "exact"
+					if code != s.Secret {
+						cls = "whitespace-variant"
+					}
+					return violation("C12", "totp-code-accepted-twice:"+cls, "with replay protection on, %q logged in twice in a row with the same TOTP code (%q)", who, s.Secret)
 				}
-				if post.TOTPLastCode != s.Secret {
+				if strings.TrimSpace(post.TOTPLastCode) != code {
 					return violation("C12", "totp-last-code-not-saved", "with replay protection on, the accepted code of %q was not stored", who)
 				}
-				c.lastTOTP[who] = s.Secret
+				c.lastTOTP[who] = code
 				m.flag("used:totp")
-			} else if c.lastTOTP[who] == s.Secret && s.Secret != "" {
+			} else if c.lastTOTP[who] == code && code != "" {
 				m.flag("replay-of-spent:totp")
 			} else if post.TOTPLastCode != pre.TOTPLastCode {
 				c.lastTOTP[who] = "" // a rejected code was recorded as last code: any later code is 'different'
@@ -290,11 +295,13 @@ var kindsC12 = []wk{
 }
 
 var profC12 = profile{
-	must: []string{"auth", "otp", "logout"}, may: []string{"recover"},
+	must: []string{"auth", "otp", "logout"}, may: []string{"recover", "lock", "remember"},
 	setups: []string{"totp", "sms", "recovery"}, kinds: kindsC12, minOps: 14, maxOps: 36,
 	accts: [2]int{2, 3}, browsers: [2]int{1, 2}, middlewares: []string{""},
 	tweak: func(t *rapid.T, c *harness.Config) {
 		c.EmailAuth = false
+		// lock may be loaded for its hooks (they save the request's user object) but must never lock here
+		c.LockAfter, c.LockWindowS = 100000, 60
 		for i := range c.Accounts {
 			a := &c.Accounts[i]
 			a.Locked, a.Unconfirmed = false, false
